@@ -24,6 +24,7 @@ os.environ.setdefault("MKL_NUM_THREADS", "1")
 os.environ.setdefault("PYTHONHASHSEED", "0")
 os.environ.setdefault("AEGEAN_VERIF", "1")
 os.environ.setdefault("TQDM_DISABLE", "1")
+os.environ.setdefault("PYTHONWARNINGS", "ignore")
 os.environ["PYTHONPATH"] = HERE + os.pathsep + os.environ.get("PYTHONPATH", "")
 
 from mc import core  # noqa: E402
